@@ -116,6 +116,8 @@ def target_toy(case, rng):
                  # a scaler on a real-valued parameter (entries of either sign), and HMC directly on a positive parameter without a
                  # transform: trajectories that cross zero fail and are tried again with another momentum
                  op("op.scale.x", "ScalerOperator", ["x"], rng, case["adapt"], scaler=float(rng.uniform(0.4, 0.9))),
+                 # a Dirichlet operator acting on a simplex through a view of its parameter
+                 op("op.dirichlet.view", "DirichletOperator", [{"id": "s2.view", "type": "ViewParameter", "parameter": "s2", "indices": ":"}], rng, case["adapt"], scaler=float(gm.loguniform(rng, 5, 200))),
                  # one Dirichlet operator over two simplexes of the same length
                  op("op.dirichlet.two", "DirichletOperator", ["s", "s2"], rng, case["adapt"], scaler=float(gm.loguniform(rng, 5, 200))),
                  hmc_op("op.hmc.y", "joint", ["y"], 2, rng, False, dense=False, eps=float(rng.uniform(0.3, 0.7)), steps=int(rng.integers(2, 6)))]
